@@ -143,13 +143,13 @@ class LocalQueueCandidates:
                 if track_instance.track_id is not None:
                     self.tracker_queue[track_instance.track_id].append(track_instance)
 
-            # Create new tracks for instances with unassigned tracks from track matching
-            new_current_instances_inds = [
-                x for x in range(len(current_instances)) if x not in row_inds
-            ]
-            if new_current_instances_inds:
-                for ind in new_current_instances_inds:
-                    self.add_new_tracks([current_instances[ind]])
+        # Create new tracks for instances with unassigned tracks from track matching
+        new_current_instances_inds = [
+            x for x in range(len(current_instances)) if x not in row_inds
+        ]
+        if new_current_instances_inds:
+            for ind in new_current_instances_inds:
+                self.add_new_tracks([current_instances[ind]])
 
         return current_instances
 
